@@ -164,3 +164,26 @@ fn c01_header_view_is_total_and_exact() {
         }
     }
 }
+
+// @funcs: RtypeBitmap::{from_octets,iter,contains,is_empty}, RtypeBitmapIter::{new,next,advance}, read_window
+// @bound: every NSEC/NSEC3 type bitmap of 0..=4 fully symbolic octets (attacker-controlled RDATA tail): if the parser accepts it, creating the iterator, taking its first item, a membership test and is_empty never panic and terminate
+// @outside: bitmaps longer than 4 octets, iterating past the first item (the bit-by-bit scan exhausts CBMC), Display of the type mnemonics
+#[kani::proof]
+#[kani::unwind(20)]
+fn c01_accepted_type_bitmap_can_be_used() {
+    use domain::base::iana::Rtype;
+    use domain::rdata::dnssec::RtypeBitmap;
+    let buf: [u8; 4] = kani::any();
+    let n: usize = kani::any();
+    kani::assume(n <= 4);
+    if let Ok(bm) = RtypeBitmap::from_octets(&buf[..n]) {
+        let first = bm.iter().next();
+        let probe: u16 = kani::any();
+        let hit = bm.contains(Rtype::from_int(probe));
+        assert!(bm.is_empty() == first.is_none());
+        if first.is_none() {
+            assert!(!hit);
+        }
+        kani::cover!(first.is_some(), "a type is listed");
+    }
+}
